@@ -37,6 +37,20 @@ pub struct Msg {
     pub message_count: u32,
 }
 
+/// The i-th delivery a broker with `deliver_with_consume_ok` sends behind a ConsumeOk.
+pub fn auto_msg(ch: u16, tag: &str, i: usize, len: usize) -> Msg {
+    let mut r = crate::rng::Rng::new(crate::rng::fnv_str(&format!("{}|{}|{}", ch, tag, i)));
+    Msg {
+        exchange: "auto".into(),
+        routing_key: format!("auto-{}-{}-{}", ch, tag, i),
+        redelivered: i % 2 == 1,
+        delivery_tag: 1_000_000_000 + i as u64,
+        props: Default::default(),
+        body: r.bytes(len),
+        message_count: 0,
+    }
+}
+
 #[derive(Debug, Clone)]
 pub struct Held {
     pub ch: u16,
@@ -75,6 +89,9 @@ pub struct Reflex {
     /// Name consumer tags per channel ("c0", "c1", ...), so that different channels
     /// use identical tags (tags are only unique within a channel).
     pub per_channel_tags: bool,
+    /// Body lengths of deliveries sent right behind every ConsumeOk, in the same chunk (a
+    /// broker with a backlog starts delivering at once): see `auto_msg`.
+    pub deliver_with_consume_ok: Vec<usize>,
     // ---- state
     pub seq: HashMap<u16, u64>,
     pub held: Vec<Held>,
@@ -121,6 +138,7 @@ impl Default for Reflex {
             ignore_conn_close: false,
             content_chunk: 4000,
             per_channel_tags: false,
+            deliver_with_consume_ok: Vec::new(),
             seq: HashMap::new(),
             held: Vec::new(),
             confirm: HashMap::new(),
@@ -630,10 +648,15 @@ impl Reflex {
                         c.consumer_tag.clone()
                     };
                     self.consumer_tags.push((ch, tag.clone()));
-                    let fr = vec![enc_method(
+                    let mut bytes = enc_method(
                         ch,
-                        AMQPClass::Basic(B::ConsumeOk(basic::ConsumeOk { consumer_tag: tag })),
-                    )];
+                        AMQPClass::Basic(B::ConsumeOk(basic::ConsumeOk { consumer_tag: tag.clone() })),
+                    );
+                    for (i, len) in self.deliver_with_consume_ok.clone().into_iter().enumerate() {
+                        let m = auto_msg(ch, &tag, i, len);
+                        bytes.extend(deliver_frames(ch, &tag, &m, &even_partition(len, 3000)).concat());
+                    }
+                    let fr = vec![bytes];
                     self.reply(ch, seq, "Basic.ConsumeOk", fr, out);
                 }
             }
